@@ -107,7 +107,8 @@ Section P.
     i_closes : closes s = if closed_pc (pc s) then 1 else 0;
     i_hooks : hooks s = match pc s with PDone => if has_hook c then 1 else 0 | _ => 0 end;
     i_panic : panicked s = false;
-    i_cancelled : match pc s with PClose | PHook | PDone => ctx_done s = true | _ => True end
+    i_cancelled : match pc s with PClose | PHook | PDone => ctx_done s = true | _ => True end;
+    i_cctx : cctx_done s = true -> ctx_done s = true
   }.
 
   Lemma linv_init c stream : LInv c stream (linit stream).
@@ -157,6 +158,7 @@ Section P.
     pose proof (i_buf _ _ _ I) as Hb. pose proof (i_closed _ _ _ I) as Hcl.
     pose proof (i_closes _ _ _ I) as Hcs. pose proof (i_hooks _ _ _ I) as Hhk.
     pose proof (i_panic _ _ _ I) as Hpn. pose proof (i_cancelled _ _ _ I) as Hcn.
+    pose proof (i_cctx _ _ _ I) as Hcc.
     pose proof (nonfinal_all _ _ _ I) as Hnf. pose proof (hist_nonfinal _ _ _ I) as Hhn.
     destruct l; simpl in H.
     - (* LRecv *)
@@ -236,6 +238,10 @@ Section P.
       destruct (chan_closed s) eqn:Ecc; try discriminate. inv_some.
       constructor; simpl; auto.
     - (* ECancel *)
+      inv_some. constructor; simpl; auto; try discriminate.
+      destruct (pc s); auto.
+    - (* ETimeout *)
+      destruct (has_timeout c); try discriminate.
       inv_some. constructor; simpl; auto; try discriminate.
       destruct (pc s); auto.
     - (* ESubClose *)
@@ -323,6 +329,12 @@ Section P.
     - destruct (pc s); simpl; try discriminate; auto.
   Qed.
 
+  (** the listener's context is derived from the caller's: it has ended whenever the caller's has
+      (and may end alone, by ListenForReplyTimeout) *)
+  Theorem caller_ctx_implies_listen_ctx c stream ls :
+    let s := lrun c (linit stream) ls in cctx_done s = true -> ctx_done s = true.
+  Proof. intros s. pose proof (reach_inv c stream ls) as I. apply I. Qed.
+
   Theorem done_state c stream ls :
     let s := lrun c (linit stream) ls in
     pc s = PDone ->
@@ -388,6 +400,7 @@ Section P.
     - destruct (buf s); try discriminate. inv_some. simpl. lia.
     - destruct (buf s); try discriminate. destruct (chan_closed s); try discriminate. inv_some. reflexivity.
     - inv_some. reflexivity.
+    - destruct (has_timeout c); try discriminate. inv_some. reflexivity.
     - inv_some. reflexivity.
   Qed.
 
